@@ -5,7 +5,8 @@ from __future__ import annotations
 import ast
 from pathlib import Path
 
-REPO = Path("/repo")
+import os
+REPO = Path(os.environ.get("VERIF_REPO", "/repo"))
 
 
 class TranslatorError(Exception):
